@@ -66,6 +66,33 @@ def run_file(desc):
     try:
         plan, reg, stores, nodes, deps = c08_file.build(d, shape)
         names = list(nodes)
+        read_log = []
+        if rng.random() < 0.5:
+            # an extra source that is a SUBCLASS of a bundled store, with its read() logged: the stale check may only ask for modified times
+            from uberjob.stores import LiteralSource, ModifiedTimeSource, PathSource
+
+            kind = rng.choice(["mts", "lit", "path"])
+            if kind == "mts":
+                class LoggedMTS(ModifiedTimeSource):
+                    def read(self):
+                        read_log.append("ModifiedTimeSource.read")
+                        return ModifiedTimeSource.read(self)
+                extra_store = LoggedMTS(dt.datetime(2020, 1, 1))
+            elif kind == "lit":
+                class LoggedLit(LiteralSource):
+                    def read(self):
+                        read_log.append("LiteralSource.read")
+                        return LiteralSource.read(self)
+                extra_store = LoggedLit(5, dt.datetime(2020, 1, 1))
+            else:
+                class LoggedPath(PathSource):
+                    def read(self):
+                        read_log.append("PathSource.read")
+                        return PathSource.read(self)
+                extra_store = LoggedPath(os.path.join(d, "a.json"))
+            xs = reg.source(plan, extra_store)
+            xn = plan.call(lambda v: 1, xs)
+            plan.add_dependency(xn, nodes["b"])
         initial = rng.choice(["empty", "built", "stale", "partial"])
         stores["a"].write({"v": 1})
         if initial != "empty":
@@ -95,6 +122,7 @@ def run_file(desc):
             return out
 
         before = snap()
+        del read_log[:]  # the runs that built the initial state legitimately read the source
         out_node = rng.choice([None] + [nodes[n] for n in names])
         fresh = rng.choice([None, None, dt.datetime.now(), dt.datetime(2001, 1, 1)])
         exc = None
@@ -106,7 +134,9 @@ def run_file(desc):
         bad = None
         if exc is not None:
             return {"status": "inconclusive", "detail": f"file-backed dry run raised {exc!r}"}
-        if before != after:
+        if read_log:
+            bad = f"[file-backed] a dry run read a store: {read_log} (it may only ask stores for their modified times)"
+        elif before != after:
             gone = sorted(set(before) - set(after))
             new = sorted(set(after) - set(before))
             changed = sorted(k for k in before if k in after and before[k] != after[k])
@@ -144,11 +174,34 @@ def run_case(desc):
     snap = S.snapshot()
     state_before = S.state_desc()
     bad = None
-    # (1) the dry run itself
-    res, exc = S.run(out_ids, W=rng.choice([1, 4]), sched=rng.choice(["default", "random"]), fresh_tick=fresh, dry_run=True)
+    # (1) the dry run itself. One case in five: every store's first modified-time query of a run fails transiently and retry=2 is given -
+    # to the dry run exactly as to the real run
+    flaky_mt = desc["seed"] % 5 == 0
+    rkw = {}
+    if flaky_mt:
+        rkw["retry"] = 2
+        seen_mt = set()
+
+        def hook(kind, st):
+            if kind == "mt" and st.name not in seen_mt:
+                seen_mt.add(st.name)
+                raise vstore.StoreFault(f"transient failure of get_modified_time on {st.name}")
+
+        S.H.store_hook = hook
+    res, exc = S.run(out_ids, W=rng.choice([1, 4]), sched=rng.choice(["default", "random"]), fresh_tick=fresh, dry_run=True, **rkw)
+    S.H.store_hook = None
     if exc is not None:
+        if flaky_mt:
+            seen_mt.clear()
+            S.H.store_hook = hook
+            S.restore(snap)
+            rB, excB = S.run(out_ids, W=1, fresh_tick=fresh, **rkw)
+            S.H.store_hook = None
+            if excB is None:
+                return {"status": "violation", "mechanism": "dry-run", "detail": f"with retry=2 and every first modified-time query failing transiently the real run succeeds "
+                        f"but the dry run raised {exc!r} (cause {exc.__cause__!r})", "witness": {"plan": S.describe(60)}, "counters": {"dry_runs": 1, "flaky_mtime_dry_runs": 1}}
         return {"status": "inconclusive", "detail": f"dry run raised {exc!r}"}
-    touched = [(k, key) for s, k, key, tid, x in S.H.events if k not in ("mt", "mt_end")]
+    touched = [(k, key) for s, k, key, tid, x in S.H.events if k not in ("mt", "mt_end", "mt_raise")]
     if touched:
         bad = f"dry run executed/accessed: {touched[:8]}"
     elif S.state_desc() != state_before or same_contents(contents(S), {i: s[0] for i, s in snap[0].items()}):
@@ -162,6 +215,15 @@ def run_case(desc):
                 n_reads += 1
             if fn is not None and getattr(fn, "__name__", "") == "write" and "VStore" in getattr(fn, "__qualname__", ""):
                 n_writes += 1
+        if desc["seed"] % 4 == 0:
+            # looking at the returned plan (render) must not change what executing it does
+            import shutil as _sh
+
+            if _sh.which("dot") is not None:
+                try:
+                    uberjob.render((pplan, out_node) if out_node is not None else pplan, level=rng.choice([0, 1, 2, None]), format="dot")
+                except BaseException:
+                    pass
         # (2a) execute the physical plan alone, all nodes, no registry
         S.restore(snap)
         S.H.reset()
@@ -192,7 +254,7 @@ def run_case(desc):
                     bad = f"outputs differ: physical plan alone {irmod.canon(rA[0])[:150]} vs real run {irmod.canon(rB)[:150]}"
                 elif out_ids is None and rB is not None:
                     bad = f"real run without output returned {rB!r}"
-    counters = {"dry_runs": 1, "dry_plans_with_reads_and_writes": int(n_reads > 0 and n_writes > 0), "dry_plan_reads": n_reads,
+    counters = {"flaky_mtime_dry_runs": int(flaky_mt), "dry_runs": 1, "dry_plans_with_reads_and_writes": int(n_reads > 0 and n_writes > 0), "dry_plan_reads": n_reads,
                 "dry_plan_writes": n_writes, "differentials": int(bad is None)}
     res_ = {"status": "ok", "counters": counters, "nontrivial": n_reads > 0 and n_writes > 0,
             "sig": hashlib.sha1(("\n".join(S.describe(200)) + f"|{state_before}|{out_ids}|{fresh}").encode()).hexdigest()[:16]}
